@@ -299,6 +299,31 @@ type HRecAnonPtr struct {
 	S []struct{ Q HAnonPtr }
 }
 
+// cycles that pass through no struct at all: a named slice, map or pointer type that contains itself, alone or in turns
+type HSelfSlice []HSelfSlice
+type HSelfMap map[string]HSelfMap
+type HSelfPtr *HSelfPtr
+type HMutA []HMutB
+type HMutB map[string]*HMutA
+
+type HRecPureSlice struct {
+	N int
+	L HSelfSlice
+}
+
+type HRecPureMap struct {
+	M HSelfMap `json:"m,omitempty"`
+}
+
+type HRecPurePtr struct {
+	P HSelfPtr
+}
+
+type HRecPureMut struct {
+	X HMutA
+	Y *HMutB
+}
+
 // RecursiveCases are kept out of Cases: only C15 (and C06) present them.
 var RecursiveCases []*Case
 
@@ -316,6 +341,10 @@ func init() {
 	regRec[HRecAnonSlice]()
 	regRec[HRecAnonMap]()
 	regRec[HRecAnonPtr]()
+	regRec[HRecPureSlice]()
+	regRec[HRecPureMap]()
+	regRec[HRecPurePtr]()
+	regRec[HRecPureMut]()
 }
 
 // LocalTwins returns two distinct struct types that are both called Item and live in the same package
